@@ -69,12 +69,25 @@ func continueAfterRecovery(db *simpledb.DB, dir string, keys [][]byte, n int, re
 		return "put after recovery: " + err.Error()
 	}
 	want[n-1] = valToken(marker)
+	// the process is "killed" right after this acknowledged Put (the first append of the recovering session to its log)
+	if kerr := killCopy(dir, keys, n, want, "recovery + put + kill"); kerr != "" {
+		return kerr
+	}
 	if err := db.VerifRotate(); err != nil {
 		return "rotation after recovery: " + err.Error()
 	}
 	db.VerifFlushBarrier()
 	if got := readAll(db, keys, n); fmt.Sprint(got) != fmt.Sprint(want) {
 		return fmt.Sprintf("after the first flush of the recovering session: %v, expected %v", got, want)
+	}
+	// one more acknowledged Put (it lands in the log file the rotation switched to), then the process is "killed" once more
+	marker2 := valBytes("cont", 4)
+	if err := db.PutBytes(keys[0], marker2); err != nil {
+		return "second put after recovery: " + err.Error()
+	}
+	want[0] = valToken(marker2)
+	if kerr := killCopy(dir, keys, n, want, "recovery + flush + put + kill"); kerr != "" {
+		return kerr
 	}
 	if err := db.Close(); err != nil {
 		return "close: " + err.Error()
@@ -89,6 +102,29 @@ func continueAfterRecovery(db *simpledb.DB, dir string, keys [][]byte, n int, re
 	defer db2.Close()
 	if got := readAll(db2, keys, n); fmt.Sprint(got) != fmt.Sprint(want) {
 		return fmt.Sprintf("after recovery + flush + restart: %v, expected %v", got, want)
+	}
+	return ""
+}
+
+// killCopy: a copy of the directory taken at a quiescent instant (flusher idle, no compactor, every Put acknowledged through the synchronous log)
+// is what a kill at that instant leaves; it must open and hold everything acknowledged so far
+func killCopy(dir string, keys [][]byte, n int, want []string, what string) string {
+	kdir := dir + ".kill"
+	os.RemoveAll(kdir)
+	if err := copyTree(dir, kdir); err != nil {
+		return ""
+	}
+	defer os.RemoveAll(kdir)
+	dbk, err := simpledb.NewSimpleDB(kdir, simpledb.DisableCompactions())
+	if err == nil {
+		err = dbk.Open()
+	}
+	if err != nil {
+		return "open after " + what + ": " + err.Error()
+	}
+	defer dbk.Close()
+	if got := readAll(dbk, keys, n); fmt.Sprint(got) != fmt.Sprint(want) {
+		return fmt.Sprintf("after %s: %v, expected %v", what, got, want)
 	}
 	return ""
 }
